@@ -203,11 +203,15 @@ func regress(t *testing.T, name string) {
 	}
 }
 
-func TestRegressPoolSizeMaxPlusOne(t *testing.T)          { regress(t, "pool-size-max-plus-one") }
-func TestRegressDeadlockPoolFull(t *testing.T)            { regress(t, "deadlock-pool-full") }
-func TestRegressStaleAfterReplacement(t *testing.T)       { regress(t, "stale-after-replacement") }
-func TestRegressStaleAfterAccountEviction(t *testing.T)   { regress(t, "stale-after-account-eviction") }
-func TestRegressPendingPromoted(t *testing.T)             { regress(t, "pending-promoted") }
-func TestRegressGapRemoveDuringPromotion(t *testing.T)    { regress(t, "gap-after-remove-during-promotion") }
-func TestRegressGapReplaceDuringPromotion(t *testing.T)   { regress(t, "gap-after-replace-during-promotion") }
-func TestRegressFullPoolEvictions(t *testing.T)           { regress(t, "full-pool-evictions") }
+func TestRegressPoolSizeMaxPlusOne(t *testing.T)        { regress(t, "pool-size-max-plus-one") }
+func TestRegressDeadlockPoolFull(t *testing.T)          { regress(t, "deadlock-pool-full") }
+func TestRegressStaleAfterReplacement(t *testing.T)     { regress(t, "stale-after-replacement") }
+func TestRegressStaleAfterAccountEviction(t *testing.T) { regress(t, "stale-after-account-eviction") }
+func TestRegressPendingPromoted(t *testing.T)           { regress(t, "pending-promoted") }
+func TestRegressGapRemoveDuringPromotion(t *testing.T) {
+	regress(t, "gap-after-remove-during-promotion")
+}
+func TestRegressGapReplaceDuringPromotion(t *testing.T) {
+	regress(t, "gap-after-replace-during-promotion")
+}
+func TestRegressFullPoolEvictions(t *testing.T) { regress(t, "full-pool-evictions") }
